@@ -239,7 +239,11 @@ def render_item(it, lang, sp):
 
 def render_join_key(side, k, sp):
     if k is None:
-        return (sp.rnd.choice(['NR', 'aNR', 'a.NR']) if sp.rnd else 'NR') if side == 'a' else (sp.rnd.choice(['bNR', 'b.NR']) if sp.rnd else 'bNR')
+        # with a header `a.NR` / `b.NR` name a COLUMN called NR (attribute variables), so those spellings exist only without one
+        hdr = sp.header_a if side == 'a' else sp.header_b
+        a_sp = ['NR', 'aNR'] + (['a.NR'] if hdr is None else [])
+        b_sp = ['bNR'] + (['b.NR'] if hdr is None else [])
+        return (sp.rnd.choice(a_sp) if sp.rnd else 'NR') if side == 'a' else (sp.rnd.choice(b_sp) if sp.rnd else 'bNR')
     return '%s%d' % (side, k + 1) if not sp.coin(0.3) else '%s[%d]' % (side, k + 1)
 
 
@@ -321,6 +325,18 @@ def render_query(q, lang, rnd=None, header_a=None, header_b=None, join_table='b'
 
 STR_POOL = ['', 'x', 'y', 'xy', 'x;y', 'a b', '10', '9', 'X', 'é', 'x;y;z', 'yy']
 NUMSTR_POOL = ['1', '2', '3', '10', '-4', '2.5', '0.25', '7', '0', '12.75', '3', '2']
+NONPOS_POOL = ['0', '-4', '-1', '-2.5', '0', '-10', '-0.5', '0']
+TINY_POOLS = [['0', '-1', '1'], ['0', '0', '5'], ['0', '-3'], ['-2', '-7', '-2.5']]
+
+
+def num_pool(rnd):
+    """numeric-string pool of one case: mixed, zero/negative only (extrema and sums around 0), or tiny (many ties)"""
+    x = rnd.random()
+    if x < 0.55:
+        return NUMSTR_POOL
+    if x < 0.8:
+        return NONPOS_POOL
+    return rnd.choice(TINY_POOLS)
 
 
 def gen_table(rnd, nrows=None, ncols=None, pool=None, ragged=0.15, none_p=0.1, full_cols=0):
